@@ -240,6 +240,128 @@ func (p *Program) rpcMethodsInPolicy(d *Directive) (items []specialItem, rep *Fu
 	return
 }
 
-func (p *Program) codecObligations(d *Directive) ([]specialItem, *FuncReport) {
-	return nil, &FuncReport{Name: "codec", Undecided: "not implemented"}
+// codecObligations: directive codec <Type> ...
+// For each named struct type of the package, one obligation per field (recursively through embedded and nested
+// structs of the module): the field's static type is one the reflection-based codecs (msgpack via ugorji/codec,
+// encoding/json) can DECODE INTO from its own encoded form: basic kinds, strings, byte strings, time.Time, types that
+// bring their own Binary/Text/JSON unmarshalers, and pointers/slices/maps/arrays/structs of such. A field whose
+// static type is a (non-empty) interface cannot be decoded into: the decoder has no concrete type to allocate.
+func (p *Program) codecObligations(d *Directive) (items []specialItem, rep *FuncReport) {
+	pk := p.byPath[d.PkgPath]
+	name := pk.Name + ".directive.codec"
+	rep = &FuncReport{Name: name, Key: d.PkgPath + ".directive.codec", Kind: "directive", File: strings.TrimPrefix(d.File, p.repo+"/"), Line: d.Line, Mode: "finite enumeration over go/types (complete)"}
+	x, st := p.newSpecExec(d.PkgPath, name, false)
+	var unmarshalers []*types.Interface
+	for _, q := range [][2]string{{"encoding", "BinaryUnmarshaler"}, {"encoding", "TextUnmarshaler"}, {"encoding/json", "Unmarshaler"}} {
+		if tp := p.typesPkg(q[0]); tp != nil {
+			if tn, ok := tp.Scope().Lookup(q[1]).(*types.TypeName); ok {
+				if it, ok := tn.Type().Underlying().(*types.Interface); ok {
+					unmarshalers = append(unmarshalers, it)
+				}
+			}
+		}
+	}
+	selfDecoding := func(t types.Type) bool {
+		if _, isI := t.Underlying().(*types.Interface); isI {
+			return false // methods in the interface's method set do not help: there is no value to call them on
+		}
+		for _, it := range unmarshalers {
+			if types.Implements(t, it) || types.Implements(types.NewPointer(t), it) {
+				return true
+			}
+		}
+		return false
+	}
+	var why string
+	var decodable func(t types.Type, depth int, seen map[types.Type]bool) bool
+	decodable = func(t types.Type, depth int, seen map[types.Type]bool) bool {
+		if depth > 12 || seen[t] {
+			return true
+		}
+		if selfDecoding(t) {
+			return true
+		}
+		if n, ok := t.(*types.Named); ok && n.Obj().Pkg() != nil && n.Obj().Pkg().Path() == "time" && n.Obj().Name() == "Time" {
+			return true
+		}
+		seen[t] = true
+		defer delete(seen, t)
+		switch u := t.Underlying().(type) {
+		case *types.Basic:
+			return true
+		case *types.Pointer:
+			return decodable(u.Elem(), depth+1, seen)
+		case *types.Slice:
+			return decodable(u.Elem(), depth+1, seen)
+		case *types.Array:
+			return decodable(u.Elem(), depth+1, seen)
+		case *types.Map:
+			return decodable(u.Key(), depth+1, seen) && decodable(u.Elem(), depth+1, seen)
+		case *types.Struct:
+			for i := 0; i < u.NumFields(); i++ {
+				f := u.Field(i)
+				if !f.Exported() {
+					continue
+				}
+				if !decodable(f.Type(), depth+1, seen) {
+					return false
+				}
+			}
+			return true
+		case *types.Interface:
+			if u.NumMethods() == 0 {
+				return true // interface{}: decoded as a generic value
+			}
+			why = "static type " + types.TypeString(t, nil) + " is an interface: the decoder has no concrete type to decode into"
+			return false
+		default:
+			why = "values of type " + types.TypeString(t, nil) + " cannot be decoded"
+			return false
+		}
+	}
+	var walk func(prefix string, t types.Type, depth int)
+	walk = func(prefix string, t types.Type, depth int) {
+		stt, ok := t.Underlying().(*types.Struct)
+		if !ok || depth > 4 {
+			return
+		}
+		for i := 0; i < stt.NumFields(); i++ {
+			f := stt.Field(i)
+			if !f.Exported() {
+				continue
+			}
+			path := prefix + "." + f.Name()
+			ft := f.Type()
+			// descend into nested structs of this module that do not decode themselves (one obligation per leaf)
+			if n, ok := ft.(*types.Named); ok && n.Obj().Pkg() != nil && strings.HasPrefix(n.Obj().Pkg().Path(), p.modPath) && !selfDecoding(ft) {
+				if _, isS := ft.Underlying().(*types.Struct); isS {
+					walk(path, ft, depth+1)
+					continue
+				}
+			}
+			why = ""
+			ok := decodable(ft, 0, map[types.Type]bool{})
+			goal, desc := "true", "field "+path+" ("+types.TypeString(ft, func(p *types.Package) string { return p.Name() })+") can be decoded from its encoded form"
+			if !ok {
+				goal = "false"
+				desc += ": " + why
+			}
+			o := &Obl{Name: fmt.Sprintf("%s#decodable(%s)", name, path), Class: "codec-type", PC: st.pc, Goal: goal, Desc: desc, Func: name, Pos: token.Position{Filename: d.File, Line: d.Line}}
+			x.vc.addObl(o)
+			items = append(items, specialItem{x.vc, o})
+			rep.NObl++
+		}
+	}
+	for _, tn := range strings.Fields(d.Args) {
+		obj, ok := pk.Types.Scope().Lookup(tn).(*types.TypeName)
+		if !ok {
+			rep.Undecided = "codec: unknown type " + tn
+			return nil, rep
+		}
+		walk(tn, obj.Type(), 0)
+	}
+	rep.Dropped = append(rep.Dropped, "struct tags, omitempty and custom (Un)Marshal method bodies are not interpreted: only the decodability of each field's static type is decided")
+	delete(p.tmpInit, x)
+	delete(p.tmpGlobals, x)
+	return
 }
